@@ -241,6 +241,9 @@ class Conf(object):
 # ---------------------------------------------------------------------------
 # the real index and how a state is copied
 
+SIBLING = "MAIN_b"
+
+
 class World(object):
     def __init__(self, C):
         self.C = C
@@ -266,6 +269,40 @@ class World(object):
             self.st = self._file_storage(self.cur)
         ix = self.st.create_index(self.C.schema())
         self.ix = ix if self.C.ixmode == "created" else None
+        # a second, differently named index in the same storage (its name extends
+        # the first one's): no transaction on the index under test may touch it
+        from whoosh import fields as F
+        sib = self.st.create_index(F.Schema(k=F.ID(stored=True)), indexname=SIBLING)
+        w = sib.writer()
+        w.add_document(k=u"sibling")
+        w.commit()
+        sib.close()
+        self.sibling = self.sibling_files()
+        if len(self.sibling) < 2:
+            raise core.HarnessError("sibling index has files %r" % sorted(self.sibling))
+
+    def sibling_files(self):
+        img = self.image()
+        return dict((n, b) for n, b in img.items() if n.startswith(SIBLING + "_") or n.startswith("_" + SIBLING + "_"))
+
+    def sibling_problem(self, when):
+        """None, or (kind, what) when the other index of the storage was touched"""
+        now = self.sibling_files()
+        if now == self.sibling:
+            try:
+                with self.st.open_index(indexname=SIBLING).searcher() as s:
+                    keys = sorted(sf["k"] for sf in s.all_stored_fields())
+                if keys != [u"sibling"]:
+                    return ("unreadable", "the other index of the storage (%s) lists %r after %s" % (SIBLING, keys, when))
+            except Exception as e:
+                return ("exc:%s@%s" % (type(e).__name__, where(e)), "opening the other index of the storage (%s) after %s raised %r"
+                        % (SIBLING, when, e))
+            return None
+        gone = sorted(set(self.sibling) - set(now))
+        if gone:
+            return ("files-deleted", "%s deleted files of the other index in the same storage (%s): %r" % (when, SIBLING, gone))
+        return ("files-changed", "%s changed files of the other index in the same storage (%s): %r"
+                % (when, SIBLING, sorted(n for n in now if now[n] != self.sibling.get(n))))
 
     def index(self):
         """The Index object the next caller uses: the one object kept since
@@ -708,6 +745,10 @@ def run_txn(W, txn, pre, checks=True, lenient=False):
         lk.release()
     else:
         res.problems.append(("lock", "still-held", "write lock still held after %s" % end))
+        return res
+    sp = W.sibling_problem(end)
+    if sp:
+        res.problems.append(("sibling-index", sp[0], sp[1]))
         return res
     try:
         res.post = dump(W.index(), C)
